@@ -2969,6 +2969,13 @@ class TLSConnection(TLSRecordLayer):
         prf_name, prf_size = self._getPRFParams(cipherSuite)
         cert_req_comp_cert_ext = None
 
+        # now that the ClientHello exchange is over, apply our record size
+        # limit to what the client sends
+        if settings.record_size_limit and \
+                clientHello.getExtension(ExtensionType.record_size_limit):
+            self._recv_record_limit = min(2**14,
+                                          settings.record_size_limit - 1)
+
         secret = bytearray(prf_size)
 
         share = clientHello.getExtension(ExtensionType.key_share)
@@ -3971,12 +3978,13 @@ class TLSConnection(TLSRecordLayer):
                     # the client can send bigger values because it may
                     # know protocol versions or extensions we don't know about
                     # (but we need to still clamp it to protocol limit)
-                    self._send_record_limit = min(
-                        2**14, size_limit_ext.record_size_limit - 1)
                     # the record layer excludes content type, extension doesn't
                     # thus the "-1)
-                    self._recv_record_limit = min(2**14,
-                        settings.record_size_limit - 1)
+                    self._send_record_limit = min(
+                        2**14, size_limit_ext.record_size_limit - 1)
+                    # (our own limit applies to protected records only, it is
+                    # set in _serverTLS13Handshake: a second ClientHello that
+                    # follows HelloRetryRequest is not bound by it)
                 else:
                     # but in TLS 1.2 and earlier we need to postpone it till
                     # handling of Finished
@@ -4104,6 +4112,7 @@ class TLSConnection(TLSRecordLayer):
                                                 bytearray(0))
                     extensions.append(etm)
                 if session.extendedMasterSecret:
+                    self.extendedMasterSecret = True
                     ems = TLSExtension().create(ExtensionType.
                                                 extended_master_secret,
                                                 bytearray(0))
